@@ -289,3 +289,7 @@ mod tests {
         assert_eq!(rx.try_recv(), None);
     }
 }
+
+// Verification hook (inert unless built by `cargo kani`, which sets --cfg kani).
+#[cfg(kani)]
+mod verif_kani;
